@@ -624,6 +624,32 @@ fn log2encl(x: &Num) -> Res {
     }
 }
 
+/// which way the real log2-bound filter goes for a pair that uses it (annotation only, not compared)
+fn path_tag(x: &Num, y: &Num) -> &'static str {
+    fn b(x: &Num) -> Option<(f32, f32, bool)> {
+        Some(match x {
+            Num::U(a) => { let (l, u) = a.log2_bounds(); (l, u, false) }
+            Num::I(a) => { let (l, u) = a.log2_bounds(); (l, u, false) }
+            Num::F2(a) if !a.repr().is_infinite() => { let (l, u) = a.log2_bounds(); (l, u, true) }
+            Num::F10(a) if !a.repr().is_infinite() => { let (l, u) = a.log2_bounds(); (l, u, true) }
+            Num::F16(a) if !a.repr().is_infinite() => { let (l, u) = a.log2_bounds(); (l, u, true) }
+            Num::R(a) => { let (l, u) = a.log2_bounds(); (l, u, true) }
+            Num::X(a) => { let (l, u) = a.log2_bounds(); (l, u, true) }
+            _ => return None,
+        })
+    }
+    match (b(x), b(y)) {
+        (Some((xl, xh, fx)), Some((yl, yh, fy))) if fx || fy => {
+            if xl > yh || yl > xh {
+                " #path=filter"
+            } else {
+                " #path=exact"
+            }
+        }
+        _ => "",
+    }
+}
+
 pub fn dispatch(op: &str, args: &[&str]) -> Option<Res> {
     if !["numcmp", "numeq", "abscmp", "abseq", "ordcmp", "numhash", "hasheq", "log2encl"].contains(&op) {
         return None;
@@ -644,7 +670,7 @@ pub fn dispatch(op: &str, args: &[&str]) -> Option<Res> {
                         ));
                     }
                 }
-                finish(main)
+                finish(main).map(|r| r + path_tag(&x, &y))
             }
             "numeq" => {
                 let x = p_num(arg(args, 0)?)?;
@@ -655,7 +681,7 @@ pub fn dispatch(op: &str, args: &[&str]) -> Option<Res> {
             "abscmp" => {
                 let x = p_num(arg(args, 0)?)?;
                 let y = p_num(arg(args, 1)?)?;
-                finish(with_repr_forms(&x, &y, &abscmp_dispatch, false))
+                finish(with_repr_forms(&x, &y, &abscmp_dispatch, false)).map(|r| r + path_tag(&x, &y))
             }
             "abseq" => {
                 let x = p_num(arg(args, 0)?)?;
